@@ -63,7 +63,7 @@ def call_method(I, recv, name, args, kwargs):
         raise Unsupported(f'method {name} on a comprehension over a symbolic list')
     if type(recv).__name__ == 'SymList':
         from . import heap as H
-        if name == 'append' and args and type(args[0]).__name__ != 'SymObj' and not isinstance(args[0], (Obj,)) \
+        if name == 'append' and args and recv.schema is not H.STR and type(args[0]).__name__ != 'SymObj' and not isinstance(args[0], (Obj,)) \
                 and not (isinstance(args[0], Opt) and type(args[0].val).__name__ == 'SymObj'):
             raise Unsupported('append of a non-object to a symbolic list')
         if name == 'insert':
@@ -543,6 +543,17 @@ def py_type(I, o):
 
 
 def py_list(I, v=()):
+    w = I.resolve_iterable(v) if not isinstance(v, (tuple, list, str, bytes)) else v
+    if type(w).__name__ in ('SymList', 'ListView'):
+        # list(L) / list(reversed(L)) of a symbolic list: a COPY (the array term is a value, so the copy is free); a view stays a view
+        from . import heap as H
+        vw = H.view_of(w)
+        if vw.enum:
+            raise Unsupported('list(enumerate(symbolic list))')
+        base = H.SymList(vw.base.elems, vw.base.length, vw.base.schema, vw.base.heap)
+        if type(w).__name__ == 'SymList':
+            return base
+        return H.ListView(base, vw.lo, vw.hi, vw.rev, False)
     return SList(list(I.iter_items(v)))
 
 
